@@ -89,6 +89,12 @@ Definition finish (h : Z) (byz : bool) (cands el : list cand) (la : list key) (p
      foldr (fun a m => <[a := h]> m) pg pa)
   else ([], pg).
 
+(* CheckMaliciousValidators (BeginBlock): while height <= BlockVotesDiff it returns before loading
+   the frozen validators, so the malicious set is empty in that window; afterwards it is the set
+   of frozen suspicious-validator records (including those it has just created for missed votes) *)
+Definition malicious_set (h bvd : Z) (frozen : list key) : list key :=
+  if h <=? bvd then [] else frozen.
+
 Record blockin := mkb {
   b_height : Z; b_cands : list cand; b_opts : opts; b_mal : list key; b_byz : bool; b_la : list key }.
 
